@@ -24,7 +24,7 @@ func init() {
 		Quick: []Scenario{
 			mk("m1", 8, "12", 60), mk("m1-ttl", 16, "9", 60), mk("m2-3c", 16, "9", 60), mk("m1-pool", 8, "12", 60), mk("m1-pool-ttl", 8, "9", 60), mk("m1-pool-reuse", 4, "11", 60),
 			icb("del-vs-evict", 8, "2", 60), icb("del-vs-expire", 8, "2", 60), icb("del-vs-evict-pool", 8, "2", 60), icb("update-vs-evict", 8, "2", 60), icb("update-vs-expire", 8, "2", 60),
-			hyb("HY1-delete-vs-worker", 4, "2", 60), hyb("HY1p-delete-vs-worker-pool", 6, "2", 60), hyb("HY2p-delete-set-vs-worker-pool", 6, "2", 60),
+			hyb("HY1-delete-vs-worker", 4, "2", 60), hyb("HY1p-delete-vs-worker-pool", 6, "2", 60), hyb("HY2p-delete-set-vs-worker-pool", 6, "2", 60), hyb("HY3-failed-secondary-delete", 4, "2", 60),
 		},
 		Thorough: []Scenario{
 			{Name: "C05/bfs-m1-3clients", Build: sched, Pkg: "internal", Test: "TestVerif_C05", Params: "cfg=m1,depth=13,clients=3,ops=2", Shards: 16, BudgetS: 600},
